@@ -25,6 +25,9 @@ TABLE = [
                      "brute-force scan of sample coordinates"),
     ("c12", ["C12"], "every refusing call, including the creating functions after their refusal point (roll-backs)"),
     ("c16", ["C16"], "create_data_frame schema derivation, append_rows / append_column, cell-level fidelity of all writers / readers"),
+    ("c20", ["C20"], "the HDF5-level deep copy (H5Group.copy: H5Ocopy + id regeneration) behind create_block / create_data_array / "
+                     "create_tag / ... (copy_from=), copy_section and create_property(copy_from=): content, internal links, id policy, "
+                     "independence"),
     ("c13", ["C13"], "Source.parent_source / parent_block, Section.parent, Section.referring_* (container iteration with object "
                      "construction per element is outside the executor's subset)"),
 ]
